@@ -86,25 +86,10 @@ Fixpoint instr_no_branch_sa (F : nat -> flags) (fuel : nat) (x : instr) : bool :
       end
   end.
 
-Definition blocklike (i : instr) : bool := match i with IPlain _ _ => false | _ => true end.
-(* D15 shape: block-exit on an `if` whose then-arm contains a block-like instruction *)
-Fixpoint instr_no_d15 (F : nat -> flags) (fuel : nat) (x : instr) : bool :=
-  match fuel with
-  | O => false
-  | S f =>
-      match x with
-      | IPlain _ _ => true
-      | IBlock _ _ _ b | ILoop _ _ _ b => forallb (instr_no_d15 F f) b
-      | IIf i _ _ _ t e =>
-          negb (negb (is_nil (f_bx (F i))) && existsb blocklike t)
-          && forallb (instr_no_d15 F f) t && forallb (instr_no_d15 F f) e
-      end
-  end.
-
 Definition nonreplacing (f : flags) : bool := is_none (f_alt f) && is_none (f_balt f).
 
-(* inside the domain of Sim.sim_closed / SimFnReal.sim_fn_real (and outside D15): the tree lowering must be exactly
-   what was emitted.  With function-exit probes X the tree is
+(* inside the domain of Sim.sim_closed / SimFnReal.sim_fn_real: the tree lowering must be exactly what was emitted
+   (for every nesting: an `if`'s block-exit code sits before its own else / end whatever the then-arm contains).  With function-exit probes X the tree is
        pre ++ [block ty] ++ lowered body (instruction 0 without its before-code) ++ bef(final end) ++ [end] ++ X
    where pre = the before-code of instruction 0 (the user's, then the entry probes). *)
 Definition tree_tie (c : scase) : bool :=
@@ -115,7 +100,7 @@ Definition tree_tie (c : scase) : bool :=
       let X := c_exit l in
       let n := S (length (c_body l)) in
       if forallb (fun x => nonreplacing (snd x)) fb && negb (is_nil t)
-         && forallb (instr_no_branch_sa F n) t && forallb (instr_no_d15 F n) t
+         && forallb (instr_no_branch_sa F n) t
       then
         match X with
         | [] => list_eqb fop_eqb (flat (flat_map (lower F X) t) ++ f_before (F fe) ++ [FEnd]) (obs_body c)
